@@ -1,6 +1,6 @@
 (** C09 -- Every operation releases the storage locks it took, on every exit path.
     Statements over the Issuance LTS (obtain, renew sync/async, ManageSync, CleanStorage, ARI
-    update; any number of threads; every schedule; every plan of error / cancel / panic faults). *)
+    update, ACME account registration; any number of threads; every schedule; every plan of error / cancel / panic faults). *)
 From Coq Require Import List Bool Arith Lia NArith.
 From CM Require Import Gen.Consts Issuance.Model Issuance.Proofs Issuance.Invariants Issuance.Refuted.
 Import ListNotations.
@@ -61,6 +61,24 @@ Proof.
   intros cs ls. destruct (run (init_state cs due_bundle) ls) as [[s es]|] eqn:R; [|vm_compute in R; discriminate].
   exists s, es. vm_compute in R. inversion R; subst s es; clear R.
   eexists. split; [reflexivity|]. unfold thread_at; simpl. split; [reflexivity|]. auto.
+Qed.
+
+(** account registration (newACMEClientWithAccount): two instances register the same new account;
+    the first one's NewAccountFunc callback panics under the lock, the deferred release runs, the
+    second one -- which was waiting -- takes the lock, registers with the CA and saves; at the end
+    nothing is held and nothing recorded *)
+Example C09_account_registration_nontrivial :
+  let cs := [TCfg (PAcct true) 3 5 5 0 false false false false; TCfg (PAcct true) 3 5 5 0 false false false false] in
+  let ls := sched [0; 0; 0; 1; 1; 0] ++ [Label 0 FPanic true] ++ sched (rep 1 0 ++ rep 8 1) in
+  exists s es th0 th1, run (init_state cs no_sto) ls = Some (s, es) /\
+    thread_at s 0 th0 /\ thread_at s 1 th1 /\ tpc th0 = PDone RPanic /\ tpc th1 = PDone ROk /\
+    recd th0 = false /\ recd th1 = false /\ lks (sh s) 3 = None /\
+    sto (sh s) (SK 5 KMeta) <> None /\ sto (sh s) (SK 5 KKey) <> None.
+Proof.
+  intros cs ls. destruct (run (init_state cs no_sto) ls) as [[s es]|] eqn:R; [|vm_compute in R; discriminate].
+  exists s, es. vm_compute in R. inversion R; subst s es; clear R.
+  do 2 eexists. split; [reflexivity|]. unfold thread_at; simpl. split; [reflexivity|]. split; [reflexivity|].
+  repeat split; auto; discriminate.
 Qed.
 
 (** tie to the source (translator T, re-read from the working tree on every run): the five
